@@ -123,10 +123,12 @@ pub fn gen_api_plan(prop: Prop, seed: u64, tier: Tier, index: u64, batch_seed: u
             1..=5 => 20,
             _ => 15 + rng.below(5) as u32,
         };
-        let (transport, capacity) = match rng.below(6) {
+        let (transport, capacity) = match rng.below(8) {
             0 | 1 => ("unbounded", 0),
             2 | 3 => ("bounded", *rng.pick(&[1usize, 2, 4, 16])),
-            _ => ("sim", *rng.pick(&[0usize, 1, 2, 4, 16])),
+            4 | 5 => ("sim", *rng.pick(&[0usize, 1, 2, 4, 16])),
+            // The real stream transport over a byte pipe (capacity / chunking derived from it).
+            _ => ("tokio", *rng.pick(&[0usize, 1, 2, 3, 5, 8, 64])),
         };
         clients.push(json!({"minor": minor, "transport": transport, "capacity": capacity, "flush_required": rng.chance(1, 3)}));
     }
